@@ -334,6 +334,10 @@ func main() {
 		os.Exit(2)
 	}
 	repo, outDir, vsrc := os.Args[1], os.Args[2], os.Args[3]
+	poolsOnly := len(os.Args) > 4 && os.Args[4] == "--pools-only"
+	if poolsOnly {
+		os.Exit(poolsOnlyMain(repo, outDir, vsrc))
+	}
 	os.RemoveAll(outDir)
 	os.MkdirAll(outDir, 0o755)
 	ctx := build.Default
@@ -454,4 +458,76 @@ func main() {
 		parts = append(parts, fmt.Sprintf("%s=%d", k, total[k]))
 	}
 	fmt.Printf("instrumented %d files: %s\n", len(overlay)-1, strings.Join(parts, " "))
+}
+
+// poolsOnlyMain is the light-weight mode used by the sequential checks: only files whose sole use of
+// package sync is sync.Pool get their import redirected to the deterministic LIFO pool shim, so that
+// object reuse through the process-wide pools is immediate and reproducible in every execution.
+func poolsOnlyMain(repo, outDir, vsrc string) int {
+	os.RemoveAll(outDir)
+	os.MkdirAll(outDir, 0o755)
+	ctx := build.Default
+	ctx.BuildTags = append(ctx.BuildTags, "verif")
+	pkg, err := ctx.ImportDir(repo, 0)
+	if err != nil {
+		fmt.Fprintln(os.Stderr, "instrument:", err)
+		return 2
+	}
+	overlay := map[string]string{}
+	fset := token.NewFileSet()
+	n := 0
+	for _, name := range pkg.GoFiles {
+		path := filepath.Join(repo, name)
+		f, err := parser.ParseFile(fset, path, nil, parser.ParseComments)
+		if err != nil {
+			fmt.Fprintln(os.Stderr, "instrument:", err)
+			return 2
+		}
+		var syncImp *ast.ImportSpec
+		for _, imp := range f.Imports {
+			if imp.Path.Value == `"sync"` && imp.Name == nil {
+				syncImp = imp
+			}
+		}
+		if syncImp == nil {
+			continue
+		}
+		onlyPool := true
+		ast.Inspect(f, func(nd ast.Node) bool {
+			if se, ok := nd.(*ast.SelectorExpr); ok {
+				if id, ok := se.X.(*ast.Ident); ok && id.Name == "sync" && se.Sel.Name != "Pool" {
+					onlyPool = false
+				}
+			}
+			return true
+		})
+		if !onlyPool {
+			continue
+		}
+		src, err := os.ReadFile(path)
+		if err != nil {
+			return 2
+		}
+		// textual replacement of the import spec keeps everything else byte-identical
+		start := fset.Position(syncImp.Path.Pos()).Offset
+		end := fset.Position(syncImp.Path.End()).Offset
+		out := string(src[:start]) + `sync "` + vschedPath + `"` + string(src[end:])
+		dst := filepath.Join(outDir, name)
+		if err := os.WriteFile(dst, []byte(out), 0o644); err != nil {
+			return 2
+		}
+		overlay[path] = dst
+		n++
+	}
+	if n == 0 {
+		fmt.Fprintln(os.Stderr, "instrument: no file with a sync.Pool-only use of package sync")
+		return 2
+	}
+	overlay[filepath.Join(repo, "vsched", "vsched.go")] = vsrc
+	ob, _ := json.MarshalIndent(map[string]any{"Replace": overlay}, "", " ")
+	if err := os.WriteFile(filepath.Join(outDir, "overlay.json"), ob, 0o644); err != nil {
+		return 2
+	}
+	fmt.Printf("pool shim applied to %d files\n", n)
+	return 0
 }
